@@ -17,7 +17,7 @@ RULE = ('timestamps are whole hours from 2020-01-01 (index points on a 6-hour gr
         'bound positions x 4 brackets. stitch cases: 1-4 series, increasing / non-strict / decreasing bound lists given as ub, lb or both, '
         'n in 1..number of series. unslice cases: stitch, df_unslice, stitch again. Every result is compared cell by cell (index and values) '
         'in Coq with M_slice; the oracle recomputes from the property text which timestamps belong to the window / to which interval, and '
-        'from which series each column must come, by plain loops over the real output. Stream G (1 500): index shuffled / newest-first / with 2-3 rows per timestamp, all brackets, dates and times of day, wrap-around (rows sharing a timestamp are compared as a multiset after sort_index). The series list and the bound lists of a stitch call are objects owned by the caller: they are re-read after every call, and stream C2 (500) reuses the same objects for 2-3 calls in a row (n = 1 then another n; decreasing and increasing lists; ub / lb / both modes), each call judged on its own. Stitched series carry names in 50 % of the list cases (distinct codes, all the same name, some unnamed, ints) and are one-column frames in 15 %. Varied in the random streams: bounds as datetime / date / Timestamp / np.datetime64 / YYYY-MM-DD / yyyymmdd, eras 1700 / 1970 / 2020 / 2250, keyword and tuple call forms, Series name / column labels / index name, DatetimeIndex input, 150-400 row series, up to 8 series, one series with several windows. '
+        'from which series each column must come, by plain loops over the real output. Stream G (1 500): index shuffled / newest-first / with 2-3 rows per timestamp, all brackets, dates and times of day, wrap-around (rows sharing a timestamp are compared as a multiset after sort_index). The series list and the bound lists of a stitch call are objects owned by the caller: they are re-read after every call, and stream C2 (500) reuses the same objects for 2-3 calls in a row (n = 1 then another n; decreasing and increasing lists; ub / lb / both modes), each call judged on its own. Stitched series carry names in 50 % of the list cases (distinct codes, all the same name, some unnamed, ints) and are one-column frames in 15 %. Stream N (700): nanosecond stamps a few ns apart with bounds as np.datetime64[ns] taken from the index values or pd.Timestamp; 15 % of the hourly slices use an object-dtype index of datetimes. Varied in the random streams: bounds as datetime / date / Timestamp / np.datetime64 / YYYY-MM-DD / yyyymmdd, eras 1700 / 1970 / 2020 / 2250, keyword and tuple call forms, Series name / column labels / index name, DatetimeIndex input, 150-400 row series, up to 8 series, one series with several windows. '
         'non-trivial = a bound coincides with an index point, '
         'a time-of-day bound, or more than one series; distinct by full case')
 EXPLANATION = ('theorems C13_* (coq/props/C13.v) hold for series of any length and any bounds: a single slice is exactly the filter of the rows '
@@ -36,11 +36,12 @@ EXHAUSTIVE = {'quick': False, 'thorough': False}
 
 E0 = datetime.datetime(2020, 1, 1)
 DAY = 24
+DAY_NS = 86400 * 10 ** 9     # cases with unit='ns': nanosecond timestamps (pd.Timestamp / np.datetime64[ns]); no time-of-day bounds there
 DAY_US = 86400 * 10 ** 6     # cases with unit='us': timestamps and times of day in microseconds
 UNIT = 'h'                   # unit of the case being run (set by impl)
 EPOCHS = {'2020': datetime.datetime(2020, 1, 1), '1700': datetime.datetime(1700, 3, 1), '1970': datetime.datetime(1970, 1, 1), '2250': datetime.datetime(2250, 6, 1)}
 def day_of(case):
-    return DAY_US if case.get('unit') == 'us' else DAY
+    return DAY_US if case.get('unit') == 'us' else DAY_NS if case.get('unit') == 'ns' else DAY
 BRACKETS = ['[]', '[)', '(]', '()']
 PINF, NINF = 10 ** 9, -10 ** 9      # +inf / -inf cells: values are carried, never computed, so the model sees two reserved integers
 
@@ -83,8 +84,12 @@ def impl_setup():
     from pyg_base import df_slice, df_unslice
 
 def T(h):
+    if UNIT == 'ns':
+        return pd.Timestamp(pd.Timestamp(E0).value + h)
     return E0 + (datetime.timedelta(microseconds=h) if UNIT == 'us' else datetime.timedelta(hours=h))
 def H(x):
+    if UNIT == 'ns':
+        return int(pd.Timestamp(x).value - pd.Timestamp(E0).value)
     d = x - E0
     if UNIT == 'us':
         return (d.days * 86400 + d.seconds) * 10 ** 6 + d.microseconds
@@ -96,6 +101,8 @@ def py_bound(b):
     if b is None: return None
     if b[0] == 'at':
         t = T(b[1])
+        if UNIT == 'ns':      # only spellings that can carry nanoseconds: np.datetime64[ns] (what ts.index.values holds) or pd.Timestamp
+            return t if BFORM == 'Timestamp' else np.datetime64(t.value, 'ns')
         midnight = (t.hour, t.minute, t.second, t.microsecond) == (0, 0, 0, 0)
         if BFORM == 'Timestamp': return pd.Timestamp(t)
         if BFORM == 'np': return np.datetime64(t)
@@ -133,7 +140,10 @@ def mk_list(case):
 def _nm(x):
     return tuple(x) if isinstance(x, list) else x
 def build_slice_arg(case):
-    idx = pd.DatetimeIndex([T(t) for t in case['ts']], name=case.get('iname'))
+    if case.get('objidx'):      # a timeseries whose index is an object-dtype Index of datetimes (the library's is_ts accepts it)
+        idx = pd.Index([T(t) for t in case['ts']], dtype=object, name=case.get('iname'))
+    else:
+        idx = pd.DatetimeIndex([T(t) for t in case['ts']], name=case.get('iname'))
     if case['form'] == 'I':
         return idx
     a = np.array([[fl(c) for c in r] for r in case['rows']], dtype=float).reshape(len(case['rows']), case['k'])
@@ -408,7 +418,7 @@ def shape(case):
         oc = case.get('oc')
         ocs = 'default' if oc is None else (oc if oc in BRACKETS else ('alias' if len(oc) == 2 and all(c in 'oOcC()[]' for c in oc) else 'malformed'))
         wrap = ':wrap' if (case['lb'] and case['ub'] and case['lb'][0] == 'tod' and case['ub'][0] == 'tod' and case['lb'][1] > case['ub'][1]) else ''
-        return 'slice:%s:%s:%s%s%s%s%s' % (f(case['lb']), f(case['ub']), ocs, wrap, ':us' if case.get('unit') == 'us' else '', ':long' if case.get('long') else '', ':index' if case['form'] == 'I' else '') + (':' + case['order'] if case.get('order') else '')
+        return 'slice:%s:%s:%s%s%s%s%s' % (f(case['lb']), f(case['ub']), ocs, wrap, ':' + case['unit'] if case.get('unit') else '', ':long' if case.get('long') else '', ':index' if case['form'] == 'I' else '') + (':objidx' if case.get('objidx') else '') + (':' + case['order'] if case.get('order') else '')
     if case['kind'] == 'stitch':
         l = case['lbs'] if case['mode'] == 'lb' else case['ubs']
         return 'stitch:%s:%s:n%d%s%s%s' % (case['mode'], 'inc' if _dir(l) else 'dec', min(case['n'], 3), ':single' if case.get('single') else '',
@@ -445,6 +455,13 @@ def name_series(rng, c, m):
         if c['n'] <= 1:                      # with n = 1 the frames are concatenated as they are: same column label (see report)
             lab = rng.choice([None, 'close', 0])
             c['names'] = [lab] * m
+    return c
+
+def obj_index(rng, c, p=0.15):
+    """object-dtype index of datetimes; date bounds only (index.time does not exist on an object Index: reported, not generated)"""
+    tod = any(b is not None and b[0] == 'tod' for b in (c['lb'], c['ub']))
+    if c['form'] in 'SD' and c['ts'] and not tod and rng.random() < p:
+        c['objidx'] = True
     return c
 
 BFORMS = ['datetime', 'datetime', 'Timestamp', 'np', 'date', 'str', 'int']
@@ -504,6 +521,7 @@ def gen_cases(rng, tier):
             form = 'S'; k = 1; vals = [r[:1] for r in vals]      # pd.concat in the wrap-around arm does not take an Index (left open)
         c = decorate(rng, slice_case(ts, k, form, lb, ub, oc, vals if form != 'I' else [[] for _ in ts], tuple=tup))
         if form == 'I' and c.get('bform') in ('date', 'str', 'int'): c['bform'] = 'Timestamp'   # bounds are not passed through dt() for an Index
+        obj_index(rng, c)
         cases.append(c)
     # B2. long series (150-400 points, hourly grid with gaps), bounds inside / on points / outside, dates and times of day
     for _ in range(40 if quick else 600):
@@ -565,7 +583,21 @@ def gen_cases(rng, tier):
         lb, ub = bnd(), bnd()
         if rng.random() < 0.25:
             a, b = sorted(rng.sample([0, 3, 6, 12, 18, 21], 2)); lb, ub = ['tod', b], ['tod', a]      # wrap-around
-        cases.append(decorate(rng, slice_case(ts, k, form, lb, ub, rng.choice(BRACKETS + BRACKETS + [None]), vals, order=mode)))
+        cases.append(obj_index(rng, decorate(rng, slice_case(ts, k, form, lb, ub, rng.choice(BRACKETS + BRACKETS + [None]), vals, order=mode))))
+    # N. nanosecond stamps: rows 1 / 250 / 999 / 1000 / 1001 / 1500 ns around a few anchors, bounds taken from the index values
+    #    (np.datetime64[ns]) or 1 / 250 ns beside them, or pd.Timestamp; all four brackets; dates only (datetime.time has no nanoseconds)
+    for _ in range(700 if quick else 10000):
+        anchors = rng.sample([0, 3600 * 10 ** 9, DAY_NS + 10 ** 6, 2 * DAY_NS + 123456789], rng.choice([1, 2, 3]))
+        ts = sorted(set(a + x for a in anchors for x in rng.sample([0, 1, 250, 500, 999, 1000, 1001, 1500, 2250], rng.choice([2, 3, 5]))))
+        form = rng.choice(['S', 'D']); k = 1 if form == 'S' else 2
+        def bnd():
+            q = rng.random()
+            if q < 0.15: return None
+            return ['at', rng.choice(ts) + rng.choice([0, 0, 0, 1, -1, 250, -250, 999])]
+        c = slice_case(ts, k, form, bnd(), bnd(), rng.choice(BRACKETS + BRACKETS + [None]), unit='ns', bform=rng.choice(['np', 'np', 'Timestamp']))
+        if rng.random() < 0.3: c['kw'] = True
+        if rng.random() < 0.3: c['name'] = 'px'
+        cases.append(c)
     # C. stitching
     for _ in range(1500 if quick else 25000):
         m = rng.choice([1, 2, 2, 3, 3, 4, 4, 6, 8])
